@@ -27,15 +27,23 @@ Lemma sgr_wf_bytes p : sgr_wf p = true -> forallb param_byte p = true.
 Proof. unfold sgr_wf. rewrite !andb_true_iff. tauto. Qed.
 
 (* an SGR sequence is decoded to a modification whose meaning is the reference machine *)
-Theorem sgr_event p :
-  sgr_wf p = true -> sgr_inexpressible p = false ->
-  exists m, single_bytes (print (RSgr p)) (EFaceModify m) /\ forall r, rapply m r = ref_sgr p r.
+Theorem sgr_event_lib p :
+  sgr_wf p = true ->
+  exists m, single_bytes (print (RSgr p)) (EFaceModify m) /\ forall r, rapply m r = ref_sgr_lib p r.
 Proof.
-  intros Hwf Hx. destruct (sgr_face_sem p Hwf Hx) as (m & Hm & Hsem). exists m. split; [|exact Hsem].
+  intros Hwf. destruct (sgr_face_sem_lib p Hwf) as (m & Hm & Hsem). exists m. split; [|exact Hsem].
   cbn [print]. change (CSI ++ p ++ [109]) with ([27; 91] ++ p ++ [109]).
   fam_tac check_sgr; [| discriminate |].
   - unfold pat_sgr. apply matches_seq_lit. apply MSeq; [apply params_match, sgr_wf_bytes, Hwf| apply MLit].
   - payload_unfold. unfold dec_sgr. rewrite (sl_mid [27; 91] _ [109]), Hm. reflexivity.
+Qed.
+
+Theorem sgr_event p :
+  sgr_wf p = true -> sgr_inexpressible p = false ->
+  exists m, single_bytes (print (RSgr p)) (EFaceModify m) /\ forall r, rapply m r = ref_sgr p r.
+Proof.
+  intros Hwf Hx. destruct (sgr_event_lib p Hwf) as (m & Hs & Hsem). exists m. split; [exact Hs|].
+  intros r. rewrite Hsem. apply ref_sgr_lib_eq, Hx.
 Qed.
 
 (* canonical attribute bits: applying any modification to the default face gives the packed
@@ -68,12 +76,11 @@ Proof.
     destruct (m_fg m), (m_bg m); reflexivity.
 Qed.
 
-Theorem single_facerep p :
-  wf decmode_all prod_key_table (RFaceReport p) = true -> single (RFaceReport p).
+Theorem single_facerep_lib p :
+  sgr_wf p = true -> single_bytes (print (RFaceReport p)) (face_report_recorded p).
 Proof.
-  cbn [wf]. intros Hwf. apply andb_true_iff in Hwf. destruct Hwf as [Hwf Hx]. apply negb_true_iff in Hx.
-  destruct (sgr_face_sem p Hwf Hx) as (m & Hm & Hsem).
-  unfold single, prod_denote, denote. cbn [print].
+  intros Hwf. destruct (sgr_face_sem_lib p Hwf) as (m & Hm & Hsem).
+  unfold face_report_recorded. cbn [print].
   replace ([27; 80; 49; 36; 114] ++ p ++ [109] ++ ST) with ([27; 80; 49; 36; 114] ++ (p ++ [109]) ++ [27; 92])
     by (unfold ST; rewrite <- app_assoc; reflexivity).
   fam_tac check_facerep; [| discriminate |].
@@ -86,4 +93,11 @@ Proof.
     replace (match p ++ [109] with [] => true | _ :: _ => false end) with false by (destruct p; reflexivity).
     cbn [negb andb]. rewrite Hm. f_equal. f_equal.
     rewrite apply_default_canonical, Hsem. reflexivity.
+Qed.
+
+Theorem single_facerep p :
+  sgr_wf p = true -> sgr_inexpressible p = false -> single (RFaceReport p).
+Proof.
+  intros Hwf Hx. pose proof (single_facerep_lib p Hwf) as H.
+  unfold single, prod_denote, denote, face_report_recorded in *. rewrite (ref_sgr_lib_eq p _ Hx) in H. exact H.
 Qed.
